@@ -273,8 +273,8 @@ class C18(Check):
                     break
                 if fired:
                     res.probe('fault-fired-page-200')
-                if nfail >= 15:
-                    res.probe('all-calls-failing')
+                if sum(1 for f in op['faults'].values() if 'raise' in f) >= 10 and nfail >= 3:
+                    res.probe('all-calls-failing')      # every host call that can fail does (the first failure ends a section)
                 body = ex.body.decode('utf8', 'replace')
                 # --- secrets -------------------------------------------------------
                 leaked = [m for m in secrets if m in body]
